@@ -72,6 +72,15 @@ def build(rng):
             guard += 1
         snap = s.canvas.tobytes()
         exps.append((inc, size_at_request, region, snap, done))
+        if done and rng.random() < 0.5:
+            # the server goes on at once: the segment that ends the answering update also carries the beginning (or all) of
+            # the next, unsolicited one - the capture is still the screen at the commit of ITS update
+            j = len(items) - 1
+            emit_update(allow_empty=False)
+            if items[j][0] == "chunk" and len(items) > j + 1 and items[j + 1][0] == "chunk":
+                k = j + 2 if rng.random() < 0.6 else len(items)          # glue the first chunk, or the whole next update
+                glued = b"".join(it[1] for it in items[j:k])
+                items[j:k] = [("chunk", glued)]
     return cfg, s, items, exps
 
 
